@@ -38,7 +38,7 @@ ASSUMPTIONS = [
 ]
 PROBES = ("suppress_then_raise", "replacement_chain", "enter_failed", "callback_cannot_suppress", "aclose_midway",
           "pop_all", "unwind_again", "block_raises", "sync_cm", "pushed_callable", "ambient_exception", "falsy_exception",
-          "stack_reused_after_unwind", "exit_raises_keyboardinterrupt_or_systemexit", "exit_pushed_during_an_enter", "exit_raises_the_blocks_exception_object_again", "pop_all_inside_aenter", "pop_all_inside_an_exit", "exit_raises_stopiteration", "dual_protocol_manager")
+          "stack_reused_after_unwind", "exit_raises_keyboardinterrupt_or_systemexit", "exit_pushed_during_an_enter", "registered_before_the_block_was_entered", "exit_raises_the_blocks_exception_object_again", "pop_all_inside_aenter", "pop_all_inside_an_exit", "exit_raises_stopiteration", "dual_protocol_manager")
 
 KINDS = ("async_cm", "sync_cm", "push_async_cm", "push_sync_cm", "push_async_fn", "push_sync_fn",
          "callback_sync", "callback_async")
@@ -149,9 +149,10 @@ def tag(exc):
 
 
 class Entry:
-    __slots__ = ("name", "kind", "behave", "susp", "enter_fails", "args", "dual", "same_as_previous", "via_enter", "push_in_enter")
+    __slots__ = ("name", "kind", "behave", "susp", "enter_fails", "args", "dual", "same_as_previous", "via_enter", "push_in_enter", "kwname")
 
     def __init__(self):
+        self.kwname = "flag"        # the name of the keyword argument a callback is registered with
         self.via_enter = False      # this exit is pushed onto the stack by the __aenter__ of the next entry
         self.push_in_enter = None   # name of the entry this manager's __aenter__ pushes
 
@@ -172,6 +173,8 @@ def gen_entries(ch, n):
         e.susp = ch.draw(3)
         e.enter_fails = e.kind in ("async_cm", "sync_cm") and ch.chance(1, 10)
         e.args = (i, "x") if not ch.chance(1, 3) else ()  # callbacks with keyword arguments only as well
+        # ... whose names may be those of an exit's own parameters
+        e.kwname = ("flag", "flag", "exc_type", "exc_val", "tb", "callback")[ch.draw(6)]
         e.dual = e.kind in ("async_cm", "push_async_cm") and ch.chance(1, 4)
         e.same_as_previous = False
         out.append(e)
@@ -253,6 +256,7 @@ class Env:
 
             async def __aexit__(self, et, ev, tb):
                 await env.pause(e.susp)
+                env.log.append(("exit_args", e.name, et is None, ev is None, tb is None))
                 return env.logic(e, ev)
 
         if e.dual:
@@ -277,13 +281,16 @@ class Env:
                 return e.name
 
             def __exit__(self, et, ev, tb):
+                env.log.append(("exit_args", e.name, et is None, ev is None, tb is None))
                 return env.logic(e, ev)
 
         async def async_exit(et, ev, tb):
             await env.pause(e.susp)
+            env.log.append(("exit_args", e.name, et is None, ev is None, tb is None))
             return env.logic(e, ev)
 
         def sync_exit(et, ev, tb):
+            env.log.append(("exit_args", e.name, et is None, ev is None, tb is None))
             return env.logic(e, ev)
 
         def sync_cb(*args, **kw):
@@ -307,7 +314,7 @@ async def register(stack, e, obj):
     elif k.startswith("push"):
         stack.push(obj)
     else:
-        stack.callback(obj, *e.args, flag=e.name)
+        stack.callback(obj, *e.args, **{e.kwname: e.name})
 
 
 class _Wrap:
@@ -352,13 +359,13 @@ async def nested(entries, objs, i, body):
             return await nested(entries, objs, i + 1, body)
     elif k == "callback_sync":
         async def call(et, ev, tb):
-            obj(*e.args, flag=e.name)
+            obj(*e.args, **{e.kwname: e.name})
             return False
         async with _Wrap(call):
             return await nested(entries, objs, i + 1, body)
     else:
         async def call(et, ev, tb):
-            await obj(*e.args, flag=e.name)
+            await obj(*e.args, **{e.kwname: e.name})
             return False
         async with _Wrap(call):
             return await nested(entries, objs, i + 1, body)
@@ -375,20 +382,29 @@ def make_objects(env, entries):
     return objs
 
 
-async def run_program_stack(entries, env, block_raises, res, ambient=False):
+async def run_program_stack(entries, env, block_raises, res, ambient=False, pre=False):
     L = lib()
     objs = make_objects(env, entries)
 
+    async def register_all(stack):
+        for e, obj in zip(entries, objs):
+            if e.via_enter:
+                env.via_objs[e.name] = obj  # registered by the next entry's __aenter__, not from here
+                continue
+            if e.push_in_enter is not None:
+                env.registering_stack = stack
+            await register(stack, e, obj)
+            env.registering_stack = None
+
     async def go():
-        async with L.ExitStack() as stack:
-            for e, obj in zip(entries, objs):
-                if e.via_enter:
-                    env.via_objs[e.name] = obj  # registered by the next entry's __aenter__, not from here
-                    continue
-                if e.push_in_enter is not None:
-                    env.registering_stack = stack
-                await register(stack, e, obj)
-                env.registering_stack = None
+        stack = L.ExitStack()
+        if pre:
+            # everything is registered on the stack before its block is entered (as with ``kept = stack.pop_all()``
+            # followed by ``async with kept:``): entering a stack does not forget what it holds
+            await register_all(stack)
+        async with stack:
+            if not pre:
+                await register_all(stack)
             env.log.append(("body",))
             if block_raises:
                 env.block_exc = env.block_type("block")
@@ -459,6 +475,7 @@ def gen(ch):
             extra.via_enter = True
             sc.entries[i].push_in_enter = extra.name
             sc.entries.insert(i, extra)
+    sc.pre_register = ch.chance(1, 4)  # (program mode) everything is registered before the stack's block is entered
     sc.enter_attr = ch.chance(1, 3)  # failing enters raise an AttributeError (tagged subclass)
     sc.block_genexit = ch.chance(1, 8)  # the block ends with exactly GeneratorExit (tagged) instead of an Exception
     sc.ambient = ch.chance(1, 3)   # everything happens while the caller handles an unrelated exception
@@ -640,7 +657,8 @@ def execute(st, ctx):
     if sc.mode == "program":
         env_r = Env(sim, "nested", exc_type, block_type)
         env_r.enter_type = env_a.enter_type
-        sim.spawn(run_program_stack(sc.entries, env_a, sc.block_raises, res_a, sc.ambient))
+        sim.spawn(run_program_stack(sc.entries, env_a, sc.block_raises, res_a, sc.ambient,
+                                    pre=sc.pre_register and not any(e.enter_fails for e in sc.entries)))
         sim.spawn(run_program_nested(sc.entries, env_r, sc.block_raises, res_r, sc.ambient))
         run_sim(sim)
         sig = ("program",)
@@ -663,8 +681,8 @@ def execute(st, ctx):
                     raise RuntimeError("unwind model disagrees with the nested statements: %r / %r vs %r" % (mlog, mexc, describe()))
                 # the nested statement cannot tell 'normal' from 'suppressed' from outside either
                 a_n = ("completed",) if a[0] in ("normal", "suppressed") else a
-                ea = [x for x in env_a.log if x[0] in ("exit", "args")]
-                er = [x for x in env_r.log if x[0] in ("exit", "args")]
+                ea = [x for x in env_a.log if x[0] in ("exit", "args", "exit_args")]
+                er = [x for x in env_r.log if x[0] in ("exit", "args", "exit_args")]
                 if ea != er:
                     kind = "order" if sorted(map(repr, ea)) == sorted(map(repr, er)) else \
                         ("exception_routing" if [x[:2] for x in ea] == [x[:2] for x in er] else "which_exits_ran")
@@ -771,6 +789,8 @@ def execute(st, ctx):
         out.probes["dual_protocol_manager"] = 1
     if any(e.via_enter for e in sc.entries):
         out.probes["exit_pushed_during_an_enter"] = 1
+    if sc.mode == "program" and sc.pre_register and sc.entries and not any(e.enter_fails for e in sc.entries):
+        out.probes["registered_before_the_block_was_entered"] = 1
     if any(b == "raise_interrupt" for b in behaves) and any(x[0] == "exit" for x in env_a.log):
         out.probes["exit_raises_keyboardinterrupt_or_systemexit"] = 1
     if any(b == "reraise_block" for b in behaves) and sc.block_raises:
